@@ -159,13 +159,7 @@ class C06(Check):
         # One case costs up to 10^4 Keccak permutations on the model side, so the model must be spread over the cores in
         # small shards.  framework.run_model has a fixed shard size of 1000 lines (Check.model_shard is not consulted by
         # it), hence this wrapper, installed only when this check runs (see notes/C06.md).
-        if not getattr(framework.run_model, "_c06_sharded", False):
-            orig = framework.run_model
-
-            def run_model_small_shards(driver, lines, timeout=1200, shard=1000):
-                return orig(driver, lines, timeout, shard=self.model_shard)
-            run_model_small_shards._c06_sharded = True
-            framework.run_model = run_model_small_shards
+        # (framework.run_model now spreads few expensive cases over all cores itself)
         # --- corpus: the two blocks of the test-suite
         miner_txs = []
         parts = split_block(BLOCK_V2)
